@@ -15,6 +15,14 @@ import ast
 
 from .model import Model, ClassInfo, Module, walk_no_nested
 
+# Receivers whose class cannot be inferred from the trees (attached through containers), with
+# the reason; each hint is *verified* by C18.R0 (bridge assumptions) on every run.
+RECEIVER_HINTS = {
+    # Specification._types / _modules hold what Compiler.process() returns: the objects
+    # produced by process_type(), i.e. CompiledType (or CompiledOpenTypes wrapping one)
+    ('asn1tools/compiler.py', 'type_'): ('CompiledType', 'CompiledOpenTypes'),
+}
+
 IGNORED_ATTR_CALLS = {
     # methods of builtins that share a name with nothing in the repo are resolved to nothing
 }
@@ -149,6 +157,12 @@ class CallGraph(object):
             return [m[1]] if m else []
         # unknown receiver: every method of that name in the family
         if self.is_builtin_text_method(call):
+            return out
+        hint = RECEIVER_HINTS.get((mod.rel, ast.unparse(recv)))
+        if hint:
+            for c, g in self.methods_by_name.get(name, []):
+                if c.name in hint:
+                    out.append(g)
             return out
         # receiver whose class can be inferred (field assigned from constructor calls only)
         ts = self.expr_types(recv, f)
